@@ -179,6 +179,18 @@ func (x *pextract) block(stmts []ast.Stmt) []*pev {
 			}
 			out = append(out, &pev{kind: evOther, text: "assignment", pos: st.Pos()})
 		case *ast.IfStmt:
+			// if _, isLiteral := n.Child.(*T); isLiteral { … }: the type test in the init statement
+			if as, ok := s.Init.(*ast.AssignStmt); ok && len(as.Lhs) == 2 && len(as.Rhs) == 1 {
+				if ta, ok := as.Rhs[0].(*ast.TypeAssertExpr); ok && ta.Type != nil {
+					if id, ok := as.Lhs[1].(*ast.Ident); ok {
+						if first, ok := as.Lhs[0].(*ast.Ident); ok && first.Name == "_" {
+							if fp, ok := x.fieldPath(ta.X); ok && fp != "" {
+								x.locals[x.info.ObjectOf(id)] = "paren:" + fp
+							}
+						}
+					}
+				}
+			}
 			cond, neg := x.cond(s.Cond)
 			ev := &pev{kind: evOpt, cond: cond, neg: neg, pos: s.Pos()}
 			ev.kids = x.block(s.Body.List)
